@@ -186,7 +186,8 @@ def random_recipe(rng, space=None):
     return r
 
 
-SIBLING_ATTRS = ["cdf", "chroma_depth", "luma_depth", "wi", "dh", "d", "sx", "sy", "pcm", "size", "qm", "fsc", "pb"]
+SIBLING_ATTRS = ["cdf", "chroma_depth", "luma_depth", "wi", "dh", "d", "sx", "sy", "pcm", "size", "qm", "fsc", "pb", "range_same_depth",
+                 "colour"]
 
 
 def sibling(rng, r, attr=None):
@@ -206,6 +207,17 @@ def sibling(rng, r, attr=None):
     elif attr == "luma_depth":
         rg[0], rg[1] = (64, 1023) if rg[1] != 1023 else (16, 255)
         s["range"] = rg
+    elif attr == "range_same_depth":
+        # other offsets/excursions, same bit depths (e.g. full range 0/255 -> video range 16/219)
+        for o, e in ((0, 1), (2, 3)):
+            bits = rg[e].bit_length()
+            lo = 1 << (bits - 1)
+            rg[e] = rg[e] - max(1, rg[e] // 7) if rg[e] - max(1, rg[e] // 7) >= lo else min((1 << bits) - 1, rg[e] + 1)
+            rg[o] = rg[o] + max(1, rg[e] // 16) if rg[o] + max(1, rg[e] // 16) < (1 << bits) else 0
+        s["range"] = rg
+    elif attr == "colour":
+        s["prim"] = 1 if r.get("prim") != 1 else 3
+        s["tf"] = 1 if r.get("tf") != 1 else 2
     elif attr == "wi":
         s["wi"] = (r["wi"] + 1) % 7
         if r["dh"] == 0:
